@@ -526,6 +526,15 @@ impl CmdTest {
                                         Err(e) => NativeOutcome::ElaborateFailed(e),
                                     };
                                     if let Some(secs) = run_secs {
+                                        // Simulation seam: the recorded duration (which orders the
+                                        // next run's dispatch) is wall-clock time.
+                                        #[cfg(feature = "verif")]
+                                        let secs = veryl_path::sim::choice(
+                                            "test.duration_us",
+                                            usize::MAX,
+                                            (secs * 1e6) as usize,
+                                        ) as f64
+                                            / 1e6;
                                         tally_timings.push((pending.test_name.clone(), secs));
                                     }
                                     // The derivation belongs with the build.
